@@ -28,7 +28,8 @@ the length is a sum). Tensors are lists; a 2-D tensor is a list of rows.
 * the loader objects (`LangDataLoader`, `SpectDataLoader`, `ContextWindowDataLoader`) as far as
   batching goes: constructor arguments + the epoch sampler object (C13's model, imported
   read-only) whose `epoch` attribute is the only mutable state; `iter(loader)`, `len(loader)`,
-  `loader.epoch = e`.
+  `loader.epoch = e`; several `iter(loader)` objects alive at once (`Session`): an iterator is the
+  value its pass had when its first batch was requested + a cursor.
 
 No Mathlib imports here: this file is also used by the driver.
 -/
